@@ -146,7 +146,7 @@ func genC17(t *rapid.T) c17Case {
 		c.Keys = append(c.Keys, k)
 	}
 	if rapid.IntRange(0, 3).Draw(t, "withfilter") == 0 {
-		c.Filter = rapid.SliceOfN(rapid.OneOf(rapid.Uint32Range(0, 5), rapid.Uint32()), 1, 4).Draw(t, "filter")
+		c.Filter = rapid.SliceOfN(rapid.OneOf(rapid.Uint32Range(0, 5), rapid.Uint32()), 1, 12).Draw(t, "filter")
 	}
 	if rapid.IntRange(0, 2).Draw(t, "withextraenv") == 0 {
 		c.ExtraEnv = map[string]string{}
